@@ -94,6 +94,7 @@ func init() {
 			c.rulesR3auto()
 			c.rulesR5auto(a)
 			c.rulesR5selfret()
+			c.rulesR4resolver() // an Auto candidate with an unmet Require must not block its siblings
 			c.rulesR6delpos()
 		}
 	})
@@ -221,6 +222,7 @@ func init() {
 		c.rulesR3push()
 		c.rulesR4nochange()
 		c.rulesR5misc("C09", nil)
+		c.rulesC01net() // the mirror's clock map is part of what converges
 		c.rulesR6misc("C09", nil)
 		c.rulesR3rpc2()
 	})
